@@ -51,6 +51,10 @@ var Registry = map[string]func(c *Ctx, arg string) error{
 			}
 			return nil
 		}
+		if arg == "farahead" {
+			RunSyncFarAhead(c)
+			return nil
+		}
 		if arg == "crash" {
 			RunSyncCrashEnum(c)
 			return nil
